@@ -295,6 +295,10 @@ class Interp:
         self.err_line = None
         self.lines = []          # scripted INPUT response lines
         self.exec_lines = []     # lines of executed simple statements
+        # lines at which code MUST have executed, in order: every executed
+        # simple statement and every evaluation of a non-constant
+        # IF/ELSEIF/WHILE/DO/LOOP condition, FOR head, SELECT selector
+        self.events = []
         self.exec_count = {}     # id(statement occurrence) -> executions
         self.on_error = None     # None | 'next' | label
         self.in_handler = False
@@ -643,6 +647,7 @@ class Interp:
                 if s[0] in _SIMPLE_WITH_CODE and not (
                         s[0] == 'dim' and all(d[1] is None for d in s[2])):
                     self.exec_lines.append(ln)
+                    self.events.append(ln)
             try:
                 self._stmt(s)
                 # statements executed by procedures called from this one
@@ -695,13 +700,21 @@ class Interp:
             self.do_print(s[1])
         elif k == 'if':
             for cond, body in s[1]:
-                t, v = self.eval(cond)
+                self.cond_event(('ifhead', s, cond), cond)
+                try:
+                    t, v = self.eval(cond)
+                except QBError as e:
+                    if e.line is None:
+                        # the condition of an ELSEIF fails on its own line
+                        e.line = self._line_of_key(('ifhead', s, cond))
+                    raise
                 if v != 0:
                     self.block(body)
                     return
             if s[2] is not None:
                 self.block(s[2])
         elif k == 'if1':
+            self.cond_event(s, s[1])
             t, v = self.eval(s[1])
             if v != 0:
                 self.block(s[2])
@@ -712,6 +725,7 @@ class Interp:
         elif k == 'while':
             while True:
                 self.tick()
+                self.cond_event(s, s[1])
                 t, v = self.eval(s[1])
                 if v == 0:
                     break
@@ -767,6 +781,39 @@ class Interp:
         else:
             raise ValueError('statement %s has no reference semantics' % k)
 
+    def cond_event(self, key, *exprs, force=False):
+        """Record that code on the line of `key` must execute now -- unless
+        every given expression is a compile-time constant (the compiler may
+        then emit no instruction for it)."""
+        if not force and all(self._is_static_const(e) for e in exprs):
+            return
+        ln = self._line_of_key(key)
+        if ln is not None:
+            self.events.append(ln)
+
+    def _line_of_key(self, key):
+        for ln, st in self.prog.lines:
+            if st is key or (isinstance(key, tuple) and isinstance(st, tuple)
+                             and len(st) == len(key) and len(key) >= 2 and
+                             st[0] == key[0] and
+                             all(a is b for a, b in zip(st[1:], key[1:]))
+                             and st[0] in ('ifhead', 'loop', 'next', 'case')):
+                return ln
+        return None
+
+    def _is_static_const(self, e):
+        k = e[0]
+        if k == 'lit':
+            return True
+        if k == 'var':
+            return self._is_const(e)
+        if k == 'un':
+            return self._is_static_const(e[2])
+        if k == 'bin':
+            return self._is_static_const(e[2]) and \
+                self._is_static_const(e[3])
+        return False
+
     def apply_seeds(self):
         n = 0
         for c in self.all_cells():
@@ -808,6 +855,7 @@ class Interp:
 
     def do_for(self, s):
         var = s[1]
+        self.cond_event(s, force=True)
         vt = etype(var, self.prog)
         if s[4] is not None:
             t, v = self.eval(s[4])
@@ -851,6 +899,7 @@ class Interp:
         while True:
             self.tick()
             if kind in ('do_while', 'do_until'):
+                self.cond_event(s, cond)
                 t, v = self.eval(cond)
                 c = v != 0
                 if (kind == 'do_while' and not c) or \
@@ -863,6 +912,7 @@ class Interp:
                     break
                 raise
             if kind in ('loop_while', 'loop_until'):
+                self.cond_event(('loop', s), cond)
                 t, v = self.eval(cond)
                 c = v != 0
                 if (kind == 'loop_while' and not c) or \
@@ -870,6 +920,7 @@ class Interp:
                     break
 
     def do_select(self, s):
+        self.cond_event(s, s[1])
         st, sv = self.eval(s[1])
         for clauses, body in s[2]:
             hit = False
